@@ -128,6 +128,17 @@ mut('c15-grad-applybcs', 'C15', 'calculus.py', "    # calculates the gradient of
 mut('c09-periodic-off-noflag', 'C09', 'boundary.py', "    def periodic(self, val):\n        self.modified = True\n        self._periodic = bool(val)\n", "    def periodic(self, val):\n        self._periodic = bool(val)\n        if self._periodic:\n            self.modified = True\n", 'periodic.setter[switch off]')
 
 
+# ---- twins for the rules added with the sixth / seventh round
+mut('twin-c09-setter-ellipsis', 'C09', 'boundary.py', "        self._a[:] = val\n", "        self._a[...] = val\n", None)
+mut('twin-c09-setter-copyto', 'C09', 'boundary.py', "        self._c[:] = val\n", "        np.copyto(self._c, val)\n        self._c.modified = True\n", None)
+mut('twin-c13-fsign-where', 'C13', 'advection.py', "    return (np.abs(phi_in) >= eps1)*phi_in+eps1*(phi_in == 0.0)+eps1*(np.abs(phi_in) < eps1)*np.sign(phi_in)",
+    "    small = np.abs(phi_in) < eps1\n    return np.where(small, np.where(phi_in == 0.0, eps1, eps1*np.sign(phi_in)), phi_in)", None)
+mut('twin-c17-fsign-where', 'C17', 'advection.py', "    return (np.abs(phi_in) >= eps1)*phi_in+eps1*(phi_in == 0.0)+eps1*(np.abs(phi_in) < eps1)*np.sign(phi_in)",
+    "    small = np.abs(phi_in) < eps1\n    return np.where(small, np.where(phi_in == 0.0, eps1, eps1*np.sign(phi_in)), phi_in)", None)
+M.append(dict(id='c15-memo-cache', prop='C15', patch=os.path.join(VERIF, 'selftest', 'mutants', 'c15-memo-cache.diff'), expect='module.diffusion'))
+M.append(dict(id='c09-tracked-setter-or', prop='C09', patch=os.path.join(VERIF, 'selftest', 'mutants', 'c09-tracked-setter-or.diff'), expect='TrackedArray.modified.setter'))
+
+
 def seeded_entries():
     """every independently seeded change whose target check reports it is replayed as a mutant of the target check"""
     sd = os.path.join(VERIF, 'seeded')
